@@ -197,7 +197,10 @@ impl Db {
         if rebuild {
             log::info!("rebuilding search index at {}", config.index_path.display());
 
-            let mut writer = db.index.writer(50_000_000)?;
+            // A single indexing thread keeps the order of documents, and with
+            // it which of several equally good matches wins, the same in
+            // every build.
+            let mut writer = db.index.writer_with_num_threads(1, 50_000_000)?;
             writer.delete_all_documents()?;
 
             for name in config.assets() {
